@@ -267,6 +267,41 @@ theorem compiled_run_exists_after_rewrite (c c' : Circuit) (hgood : c.Good) (har
   · show (TabSpec.gstate s.t).G P ↔ (TabSpec.gstate s'.t).G P
     rw [hg]
 
+/-- the same from an arbitrary valid initial tableau (`compile(circuit, initial_state)`): two runs of the compile loop from
+    `t0` along two linear extensions in which every measuring operation recorded the same outcome end in the same signed
+    stabilizer group; and for every run along `seq1` such a run along `seq2` exists (probabilistic mode, some script) -/
+theorem compiled_tableau_independent_of_topological_order_from (c : Circuit) (hgood : c.Good) (har : Commute.ArityOk c)
+    (seq1 seq2 : List Nat) (hl1 : c.isLinearExtension seq1 = true) (hl2 : c.isLinearExtension seq2 = true)
+    (t0 : Tab) (hv : t0.Valid) (hr : t0.StabReal) (hn : t0.n = c.ne + c.np)
+    (d1 : Det) (script1 : List Bool) (s1 : RunState)
+    (h1 : stabRunFrom t0 c.np d1 script1 ((c.sops seq1).map Commute.toCOp) = some s1) :
+    (∀ (d2 : Det) (script2 : List Bool) (s2 : RunState),
+      stabRunFrom t0 c.np d2 script2 ((c.sops seq2).map Commute.toCOp) = some s2 →
+      Commute.feed c.ne c.np (c.sops seq1) s1.outs (fun _ => []) =
+        Commute.feed c.ne c.np (c.sops seq2) s2.outs (fun _ => []) →
+      ∀ P, TabSpec.Grp s1.t P ↔ TabSpec.Grp s2.t P) ∧
+    ∃ (script2 : List Bool) (s2 : RunState),
+      stabRunFrom t0 c.np .prob script2 ((c.sops seq2).map Commute.toCOp) = some s2 ∧
+      Commute.feed c.ne c.np (c.sops seq1) s1.outs (fun _ => []) =
+        Commute.feed c.ne c.np (c.sops seq2) s2.outs (fun _ => []) := by
+  have h0 : Commute.TInv (c.ne + c.np) t0 := ⟨hv, hr, hn⟩
+  have r1 := (Commute.stabRunFrom_refines c hgood har seq1 t0 h0 d1 script1 s1 h1).2 (fun _ => [])
+  have e := compile_independent_of_topological_order_stab c.ne c.np c hgood seq1 seq2 hl1 hl2
+    (Commute.GSt.ofTab c.ne c.np t0 h0 (Commute.feed c.ne c.np (c.sops seq1) s1.outs (fun _ => [])))
+  have e' := congrArg Subtype.val e
+  rw [Commute.runSeq_appG_val, Commute.runSeq_appG_val] at e'
+  have e2 : runSeq (Commute.appRaw c.ne c.np) (c.sops seq2) (some (TabSpec.gstate t0,
+      Commute.feed c.ne c.np (c.sops seq1) s1.outs (fun _ => []))) = some (TabSpec.gstate s1.t, fun _ => []) := by
+    rw [← r1]; exact e'.symm
+  refine ⟨fun d2 script2 s2 h2 hout P => ?_, ?_⟩
+  · have r2 := (Commute.stabRunFrom_refines c hgood har seq2 t0 h0 d2 script2 s2 h2).2 (fun _ => [])
+    rw [← hout, e2] at r2
+    simp only [Option.some.injEq, Prod.mk.injEq, and_true] at r2
+    show (TabSpec.gstate s1.t).G P ↔ (TabSpec.gstate s2.t).G P
+    rw [r2]
+  · obtain ⟨script2, s2, hs2, _, hF⟩ := Commute.stabRunFrom_complete c hgood har seq2 t0 h0 _ _ e2
+    exact ⟨script2, s2, hs2, hF⟩
+
 /-! ## 2d. gate-only circuits: literally the same tableau
 
   For circuits without measurements the statement holds for the *tables*, not only for the groups they generate: the row
@@ -576,5 +611,34 @@ example :
     let ops2 : List COp := [.gate1 .X ⟨.p, 1⟩, .measz ⟨.p, 1⟩ 0, .measz ⟨.p, 0⟩ 0]
     (stabRun 0 2 .zero [] ops1).map (fun s => finalRecord 1 s.writes) = some [true] ∧
     (stabRun 0 2 .zero [] ops2).map (fun s => finalRecord 1 s.writes) = some [false] := by decide +kernel
+
+/-- `H e0 ; CNOT e0→p0 ; X p0 ; MeasurementZ e0→c0 ; MeasurementZ p0→c1`: the two measurements are anticorrelated -/
+def exF : Circuit :=
+  let ops : List Op := [⟨.base .H, [⟨.e, 0⟩], [], false⟩, ⟨.cnot, [⟨.e, 0⟩, ⟨.p, 0⟩], [], false⟩,
+    ⟨.base .X, [⟨.p, 0⟩], [], false⟩, ⟨.measZ, [⟨.e, 0⟩], [0], false⟩, ⟨.measZ, [⟨.p, 0⟩], [1], false⟩]
+  ops.foldl (fun c op => c.addCore op) (Circuit.empty 1 1 2)
+
+/-- **why the outcomes must be attached to the operations** (hypothesis `hout`): with a *forced-outcome setting*
+    (`measurement_determinism = 0`) the state the loop compiles to does depend on the topological order — the measurement met
+    first is random and gets the forced 0, the other one is then determined to be 1.  Along `[…,4,5]` the emitter ends in
+    `|0⟩` (`+Z_e` is a stabilizer), along `[…,5,4]` in `|1⟩`; the per-register outcome streams differ, so `hout` fails. -/
+example : exF.isLinearExtension [1, 2, 3, 4, 5] = true ∧ exF.isLinearExtension [1, 2, 3, 5, 4] = true ∧
+    ∃ s1 s2 : RunState,
+      stabRun 1 1 .zero [] ((exF.sops [1, 2, 3, 4, 5]).map Commute.toCOp) = some s1 ∧
+      stabRun 1 1 .zero [] ((exF.sops [1, 2, 3, 5, 4]).map Commute.toCOp) = some s2 ∧
+      TabSpec.Grp s1.t (PRow.Zq 1 false) ∧ TabSpec.Grp s2.t (PRow.Zq 1 true) ∧
+      Commute.feed 1 1 (exF.sops [1, 2, 3, 4, 5]) s1.outs (fun _ => []) ⟨.e, 0⟩ = [false] ∧
+      Commute.feed 1 1 (exF.sops [1, 2, 3, 5, 4]) s2.outs (fun _ => []) ⟨.e, 0⟩ = [true] := by
+  refine ⟨by decide, by decide, ?_⟩
+  have e1 : (stabRun 1 1 .zero [] ((exF.sops [1, 2, 3, 4, 5]).map Commute.toCOp)).map
+      (fun s => (s.outs, Commute.grpCheck s.t (PRow.Zq 1 false))) = some ([false, true], true) := by decide +kernel
+  have e2 : (stabRun 1 1 .zero [] ((exF.sops [1, 2, 3, 5, 4]).map Commute.toCOp)).map
+      (fun s => (s.outs, Commute.grpCheck s.t (PRow.Zq 1 true))) = some ([false, true], true) := by decide +kernel
+  obtain ⟨s1, h1, o1⟩ := Option.map_eq_some_iff.mp e1
+  obtain ⟨s2, h2, o2⟩ := Option.map_eq_some_iff.mp e2
+  simp only [Prod.mk.injEq] at o1 o2
+  refine ⟨s1, s2, h1, h2, Commute.grp_of_grpCheck _ _ o1.2, Commute.grp_of_grpCheck _ _ o2.2, ?_, ?_⟩
+  · rw [o1.1]; rfl
+  · rw [o2.1]; rfl
 
 end Graphiq.C13
